@@ -210,7 +210,7 @@ func c04Recipient(rt *rapid.T, tc *twoChain) string {
 
 func TestC04Rapid(t *testing.T) {
 	rec := evid.For("C04")
-	runRapid(t, 600, 6000, func(rt *rapid.T) {
+	runRapid(t, 600, 15000, func(rt *rapid.T) {
 		c := rec.Begin()
 		w := newC04WorldWith(rapid.IntRange(0, 1).Draw(rt, "otherFirst"), rapid.IntRange(0, 1).Draw(rt, "otherAfter"))
 		tc := w.tc
